@@ -200,3 +200,14 @@ def c12_rejection_known(failure, max_held=3):
         with open(path, encoding='utf-8') as f:
             _C12_REJ = set(line.strip() for line in f if line.strip())
     return json.dumps({'type': norm['type'], 'held': norm['held'], 'rejected': norm['rejected']}, sort_keys=True) in _C12_REJ
+
+
+def c14_stale_required_original(failure):
+    """C14, second copy after mutating the original: the ORIGINAL answers with a missing-children message after a
+    removal (the stale mark of KF-R-stale-required) while the freshly rebuilt copy serialises or words the message
+    afresh"""
+    o = failure.get('observed') or {}
+    inp = failure['input']
+    removed = any(m and m[0] == 'remove' for m in inp.get('mutations', []) + (inp.get('mutations2') or [])) or bool(inp.get('plan', {}).get('readd'))
+    return bool(o.get('second copy after mutating the original')) and removed and \
+        isinstance(o.get('original'), str) and 'requires at least following children' in o['original']
